@@ -66,7 +66,8 @@ def mismatch(exp: Dict[str, Any], obs: Dict[str, Any]) -> Optional[Dict[str, Any
     if obs.get("hang"):
         return {"what": "hang", "expected_err": exp["err"], "expected_out": exp["out"]}
     if exp["err"]:
-        if obs["err"] == exp["err"]:
+        # several errors in one program: the properties do not say which one surfaces first
+        if obs["err"] == exp["err"] or obs["err"] in exp.get("errs", []):
             return None
         return {"what": "error-class", "expected": exp["err"], "observed": obs["err"] or "no error",
                 "msg": obs.get("msg", ""), "observed_out": obs.get("out")}
@@ -114,7 +115,8 @@ def mc_programs(alphabet: str, mode: str, maxnodes: int, workers: int = 4, timeo
         pid = i + 1
         progs.append({"id": pid, "mode": row["mode"], "devs": [], "dyn": False, "pyctx": False, "ctx": libd["ctx"], "comps": libd["comps"],
                       "page": row["page"]})
-        exp[pid] = {"id": pid, "out": row["out"], "err": row["err"], "zone": row["zone"], "insts": row["insts"]}
+        exp[pid] = {"id": pid, "out": row["out"], "err": row["err"], "errs": row["errs"], "zone": row["zone"],
+                    "insts": row["insts"]}
     return progs, exp, r
 
 
